@@ -213,6 +213,15 @@ def sympy_exact(ctx):
 
     ctx.search("sympy_exact", cases(), body)
 
+    # outcomes whose exact probability lies between the comparison tolerance and 1e-4 (small rotation angles) must be
+    # reported with that probability, not dropped: reached by construction (the generator above meets them only rarely)
+    small = []
+    for th in (0.01, 0.002, -0.0123, 0.015):
+        for g in ("RX", "RY"):
+            small.append({"nq": 2, "gates": [{"n": g, "t": [0], "c": None, "p": th}, {"n": "X", "t": [1], "c": None, "p": None}], "init": None})
+        small.append({"nq": 2, "gates": [{"n": "H", "t": [0], "c": None, "p": None}, {"n": "CRX", "t": [1], "c": [0], "p": th}], "init": None})
+    ctx.sweep("sympy_small_prob", small if ctx.tier != "quick" else small[:6], body)
+
     # gates sympy cannot express must be refused (documented: ValueError), never silently altered
     def body_refuse(case):
         from tangelo.linq import translate_circuit
